@@ -84,7 +84,15 @@ def r42(repo, ctx):
     arr = U.params(f)[2]
     want = {'0': ('leftBC', 'leftBCtype', '1'), '-1': ('rightBC', 'rightBCtype', '-2')}
     n = 0
+    # `if T: a[..] = A else: a[..] = B` is the statement form of `a[..] = A if T else B`
+    folded, inside_folded = [], set()
     for s in ast.walk(f):
+        if isinstance(s, ast.If) and len(s.body) == 1 and len(s.orelse) == 1 and all(isinstance(b, ast.Assign) and len(b.targets) == 1 for b in (s.body[0], s.orelse[0])) \
+                and U.dump(s.body[0].targets[0]) == U.dump(s.orelse[0].targets[0]):
+            a_ = ast.copy_location(ast.Assign(targets=[s.body[0].targets[0]], value=ast.copy_location(ast.IfExp(test=s.test, body=s.body[0].value, orelse=s.orelse[0].value), s), lineno=s.lineno), s)
+            folded.append(a_)
+            inside_folded |= {id(s.body[0]), id(s.orelse[0])}
+    for s in [x for x in ast.walk(f) if id(x) not in inside_folded] + folded:
         if isinstance(s, ast.Assign) and isinstance(s.targets[0], ast.Subscript) and isinstance(s.targets[0].value, ast.Name) and s.targets[0].value.id == arr:
             sl = s.targets[0].slice
             col = U.src(sl.elts[1]) if isinstance(sl, ast.Tuple) and len(sl.elts) == 2 else None
